@@ -176,12 +176,26 @@ def period_requires(p):
 class PeriodStop(Contract):
     name = f"{PER}.stop"
     prop = ("C04",)
-    cases = UNITS
+    HISTORY = {"after-another-month-period-that-prints-alike": (("month", (2022, 1, 1), 3), ("month", (2022, 1, 15), 3)),
+               "after-another-week-period-that-prints-alike": (("week", (2022, 1, 3), 1), ("week", (2022, 1, 1), 1)),
+               "after-another-year-period-that-prints-alike": (("year", (2021, 1, 1), 1), ("year", (2021, 1, 31), 1))}
+    cases = UNITS + tuple(HISTORY)
     top_level = True
-    descr = "the last day of a period is the day before start (+) size units"
+    descr = ("the last day of a period is the day before start (+) size units - whatever other period was asked before (two periods "
+             "that print alike because the text drops the start day are still two periods)")
 
     def setup(self, I, ctx, case):
         unit = case
+        if case in self.HISTORY:
+            (u1, s1, n1), (u2, s2, n2) = self.HISTORY[case]
+            first = mk_period(I, u1, mk_instant(I, *s1), n1)
+            f, _ = self.target(I)
+            ctx.depth += 1
+            try:
+                I.inline_call(ctx, f, [], {"self": first})          # the real property body, on the period asked before
+            finally:
+                ctx.depth -= 1
+            return {"self": mk_period(I, u2, mk_instant(I, *s2), n2)}
         if unit == "eternity":
             start = mk_instant(I, -1, -1, -1)
             return {"self": mk_period(I, unit, start, -1)}
